@@ -88,6 +88,24 @@ def runCalls : CRd → List Call → List CallRes
     let r := c.readFull n
     .bytes r.data r.err r.st.count :: runCalls r.st cs
 
+/-! ## what the buffered reader asks of the underlying reader -/
+
+/-- the two calls everything above the buffered reader is made of (`io.ReadFull`, `io.ReadAll`,
+`binary.ReadUvarint`, the counting and checksum wrappers only ever call `Read` and `ReadByte`) -/
+inductive RdOp where
+  | readByte
+  | read (n : Nat)
+  deriving Repr, DecidableEq
+
+/-- the state of the buffered reader after a sequence of calls -/
+def Rd.run : Rd → List RdOp → Rd
+  | b, [] => b
+  | b, .readByte :: ops => Rd.run (b.readByte).2 ops
+  | b, .read n :: ops => Rd.run (b.read n).st ops
+
+/-- every request the underlying reader has seen so far fits the reader's own buffer -/
+def Rd.OwnBuf (b : Rd) : Prop := ∀ r ∈ b.under.reqs, r ≤ b.cap
+
 /-! ## pure-stream readers of file versions 3 and 2 (the spec the buffered composition is compared with) -/
 
 /-- `readRecordHeaderV3` on the remaining stream.  No checksum, no canonical-varint rule, no 36-byte window:
